@@ -636,7 +636,7 @@ fn gen_kernel_cases(k: &mut KRun, thorough: bool) {
                     let boundary_ok = text.is_char_boundary(na.min(13)) && text.is_char_boundary(nb.min(13)) && na <= 12 && nb <= 12;
                     let imp = caught(|| sub.with_bounds(a..b));
                     k.add(
-                        format!("withbounds 12 {} {} {} {}", s0, a, b, boundary_ok as u8),
+                        format!("strwithbounds 12 {} 12 {} {} {}", s0, a, b, boundary_ok as u8),
                         ok_or_panic(imp, |r| match r {
                             None => "none".into(),
                             Some(x) => {
